@@ -189,7 +189,8 @@ fn check_seq(c: &SeqCase, p: &mut Probe) -> Check {
     let lay = c.layout;
     let gbits: Vec<GF2> = gf(&c.bits).to_vec();
     // one modulator object, used first on a shorter sequence (objects are reused frame after frame)
-    let modulator = Psk8Modulator::new();
+    // both public constructors (the BER engine builds its modulator through Default)
+    let modulator = if c.salt & 1 == 1 { Psk8Modulator::default() } else { Psk8Modulator::new() };
     if c.bits.len() >= 6 {
         let half = c.bits.len() / 6 * 3;
         let first = modulator.modulate(&gf(&c.bits[..half]));
@@ -232,7 +233,7 @@ fn check_seq(c: &SeqCase, p: &mut Probe) -> Check {
         let lp = dem.demodulate(part);
         ensure!(lp.len() == 3 * part.len() && lp.iter().zip(&ln[3..]).all(|(a, b)| a.to_bits() == b.to_bits()), "psk8-llr-slice-dependence", "the LLRs of a symbol depend on where in the slice it stands (sequence of {} symbols vs its tail)", noisy.len());
     }
-    let s = guarded(|| with_layout(&gbits, GF2::one(), lay, |v| BpskModulator::new().modulate(&v))).map_err(|e| Fail::new("panic", format!("BPSK modulate panicked (bit array layout {}): {e}", layout_name(lay))))?;
+    let s = guarded(|| with_layout(&gbits, GF2::one(), lay, |v| if c.salt & 2 == 2 { BpskModulator::default().modulate(&v) } else { BpskModulator::new().modulate(&v) })).map_err(|e| Fail::new("panic", format!("BPSK modulate panicked (bit array layout {}): {e}", layout_name(lay))))?;
     ensure!(s.len() == c.bits.len() && s.iter().zip(&c.bits).all(|(x, &b)| *x == if b == 1 { 1.0 } else { -1.0 }), "bpsk-map", "BPSK modulator maps {:?} to {s:?} (bit array layout {})", c.bits, layout_name(lay));
     let bd = BpskDemodulator::from_noise_sigma(sigma);
     let l = bd.demodulate(&s);
@@ -274,7 +275,7 @@ pub fn property() -> Property {
             }),
             Box::new(Sub {
                 name: "roundtrip",
-                rule: "bit sequences of 0..39 symbols: every symbol equals the own mapping of its three bits in order (bit order within a symbol), hard decisions (LLR <= 0 -> 1) of the demodulated noiseless symbols return the sequence for any sigma, for 8PSK and BPSK; the bit array is handed to the modulators in six memory layouts (owned, reversed view, strided views, offset sub-range); the whole sequence plus bounded pseudo-noise is demodulated in one call and every LLR compared with the own exact posterior log-ratio of its sample (8PSK: 64 eps (|r|/sigma^2 + 1), BPSK: 4 eps relative), and the same demodulator object on the tail of the slice returns bit-identical values; non-trivial = at least two symbols",
+                rule: "bit sequences of 0..39 symbols: every symbol equals the own mapping of its three bits in order (bit order within a symbol), hard decisions (LLR <= 0 -> 1) of the demodulated noiseless symbols return the sequence for any sigma, for 8PSK and BPSK; modulators built by new() or Default::default(); the bit array is handed to the modulators in six memory layouts (owned, reversed view, strided views, offset sub-range); the whole sequence plus bounded pseudo-noise is demodulated in one call and every LLR compared with the own exact posterior log-ratio of its sample (8PSK: 64 eps (|r|/sigma^2 + 1), BPSK: 4 eps relative), and the same demodulator object on the tail of the slice returns bit-identical values; non-trivial = at least two symbols",
                 cases: |t| t.pick(300_000, 10_000_000),
                 strategy: seq_strategy,
                 check: check_seq,
